@@ -276,3 +276,24 @@ package catalog
 //@ func pathTagTitle(path)
 //@   attr trusted
 //@   modifies nothing
+
+// ---------------------------------------------------------------------------
+// "A failure of a catalog setter is never dropped" (C03): gFailed counts the setter calls that returned an error.
+//@ ghost field Catalog.gFailed int
+//@ modset requestMod(c) := allfield(HTTPInteraction, Request), allfield(HTTPRequest, HTTPRequestBody), c.gFailed
+//@ func (*Catalog).AddRequest(c, d)
+//@   attr trusted
+//@   requires c != nil
+//@   modifies requestMod(c)
+//@   ghost c.gFailed := ite(result != nil, old(c.gFailed) + 1, old(c.gFailed))
+//@ func (*Catalog).AddRequestBody(c, s, f, d)
+//@   attr trusted
+//@   requires c != nil
+//@   modifies requestMod(c)
+//@   ghost c.gFailed := ite(result != nil, old(c.gFailed) + 1, old(c.gFailed))
+//@ func NewExchangeJSightSchema
+//@   attr trusted
+//@   modifies nothing
+//@ func NewExchangeRegexSchema
+//@   attr trusted
+//@   modifies nothing
